@@ -145,7 +145,7 @@ Lemma t_delete_keeps : forall (T T' : tree) q p e,
 Proof.
   intros T T' q p e Dl G N. unfold t_delete in Dl. destruct q; [discriminate|].
   destruct (T !! (p0 :: q)); [|discriminate]. injection Dl as <-.
-  unfold cut. apply map_lookup_filter_Some. split; [exact G | exact N].
+  unfold cut. apply map_filter_lookup_Some. split; [exact G | exact N].
 Qed.
 
 (** copy / move deliver the value ... *)
@@ -157,7 +157,7 @@ Proof.
   destruct (t_copy T s d) as [T1|] eqn:C; [|discriminate]. split.
   - eapply t_delete_keeps; [exact M | eapply t_copy_value; eassumption | exact N].
   - unfold t_delete in M. destruct s; [discriminate|]. destruct (T1 !! (p :: s)); [|discriminate].
-    injection M as <-. unfold cut. apply map_lookup_filter_None. right. intros x _ X. apply X. reflexivity.
+    injection M as <-. unfold cut. apply map_filter_lookup_None. right. intros x _ X. apply X. reflexivity.
 Qed.
 
 (** ... and every step keeps the datasets it is not aimed at. *)
